@@ -39,6 +39,10 @@ package ros
     loop 1 invariant len(buf) == 8 && len(header) > 0 && len(data) > 0 && len(chunkData) > 0 && activeReader != nil && baseReader != nil
         && base(header) != base(data) && base(header) != base(chunkData) && base(data) != base(chunkData)
         && base(buf) != base(header) && base(buf) != base(data) && base(buf) != base(chunkData)
+    loop 1 backedge [a-message-or-connection-record-is-never-skipped] {C18} inChunk == athead(inChunk) && ghost(cb_calls, msgcallback) == athead(ghost(cb_calls, msgcallback)) && ghost(cb_calls, connectionCallback) == athead(ghost(cb_calls, connectionCallback))
+        ==> opcode[0] != OpBagMessageData && opcode[0] != OpBagConnection
+    call msgcallback#1 assert [message-callback-gets-a-message-records-header-and-data] {C18} opcode[0] == OpBagMessageData && base(arg0) == base(header) && off(arg0) == off(header) && len(arg0) == headerlen && base(arg1) == base(data) && off(arg1) == off(data) && len(arg1) == datalen
+    call connectionCallback#1 assert [connection-callback-gets-a-connection-records-header-and-data] {C18} opcode[0] == OpBagConnection && base(arg0) == base(header) && off(arg0) == off(header) && len(arg0) == headerlen && base(arg1) == base(data) && off(arg1) == off(data) && len(arg1) == datalen
 @*/
 
 /*@ func Bag2MCAP$1
